@@ -282,3 +282,15 @@ Theorem mixed_order_is_native : forall g entry,
   wrap_consistent g = true -> bundle_trace g entry = native_trace g entry.
 Proof. intros g entry H. exact (bundle_is_native g H entry). Qed.
 Print Assumptions mixed_order_is_native.
+
+(* EncodeStringAsShortestDataURL (dataurl loader, CSS url()): whichever of the two forms is chosen -
+   percent-escaped or base64 - the URL denotes exactly the file's bytes under the WHATWG processor.
+   The base64 codec itself is trusted: it appears as section variables with its round trip and its
+   output alphabet as hypotheses *)
+Theorem dataurl_shortest_roundtrip : forall (b64enc : bytes -> bytes) (b64dec : bytes -> option bytes),
+  (forall t, Forall byte_ok t -> b64dec (b64enc t) = Some t) ->
+  (forall t, Forall byte_ok t -> Forall b64_char (b64enc t)) ->
+  forall mime text, mime_ok mime -> Forall byte_ok text ->
+  data_url_value b64dec (encode_shortest b64enc mime text) = Some text.
+Proof. exact shortest_roundtrip_all. Qed.
+Print Assumptions dataurl_shortest_roundtrip.
